@@ -534,7 +534,14 @@ func (d *resolveUndoDecoder) readEntry() (*ResolveUndoEntry, error) {
 		}
 	}
 
-	for s := range e.Stages {
+	// The object names follow in stage order (1, 2, 3), one for every stage
+	// with a non-zero mode. Ranging over the map would attach them to the
+	// stages in random order.
+	for _, s := range []Stage{AncestorMode, OurMode, TheirMode} {
+		if _, ok := e.Stages[s]; !ok {
+			continue
+		}
+
 		var h plumbing.Hash
 		h.ResetBySize(d.h.Size())
 		if _, err := h.ReadFrom(d.r); err != nil {
